@@ -64,19 +64,26 @@ func (d *filesDir) ReadDir(n int) ([]fs.DirEntry, error) {
 		names = append(names, name)
 	}
 	sort.Strings(names)
-	if n > 0 {
-		if len(names) <= d.n {
+	if len(names) <= d.n {
+		if n > 0 {
 			return nil, io.EOF
 		}
-		names = names[d.n:]
-		if len(names) > n {
-			names = names[:n]
-		}
-		d.n += len(names)
+		return []fs.DirEntry{}, nil
 	}
+	names = names[d.n:]
+	if n > 0 && len(names) > n {
+		names = names[:n]
+	}
+	d.n += len(names)
 	entries := make([]fs.DirEntry, len(names))
 	for i, name := range names {
-		entries[i] = &filesDirEntry{filesFileInfo{name: name}}
+		info := filesFileInfo{name: name}
+		if data, ok := d.fsys[name]; ok {
+			info.data = data
+		} else {
+			info.mode = fs.ModeDir
+		}
+		entries[i] = &filesDirEntry{info}
 	}
 	return entries, nil
 }
